@@ -285,6 +285,9 @@ def do_replay(pm, R, path):
     seed, tier = rec.get("seed", 0), rec.get("tier", "quick")
     if rec["kind"] == "failing-input":
         key = rec["failure"].get("key")
+        if getattr(pm, "REPLAY_NEEDS_STREAMS", False):
+            for fn in pm.STREAMS:
+                fn(R, tier, seed)
         for fn in pm.ORACLES:
             fn(R, tier, seed)
         again = [f for O in R.oracles.values() for f in O["failures"] if f.get("key") == key]
